@@ -284,6 +284,12 @@ typename SPxSolverBase<R>::Status SPxSolverBase<R>::solve(volatile bool* interru
       coSolveVector2 = nullptr;
       coSolveVector3 = nullptr;
 
+      // the same holds for the update vectors: the steepest edge pricer computes them when it selects a variable, and a
+      // solve that was stopped between selection and pivot (iteration limit, interrupt) leaves them behind; enter() and
+      // leave() would reuse them for whatever the pricer selects next
+      theFvec->delta().clear();
+      theCoPvec->delta().clear();
+
       updateViols.clear();
       updateViolsCo.clear();
 
